@@ -1,4 +1,5 @@
 """C03 division and remainder: Euclidean contract through every form."""
+import random
 from ..vlib import WIDTHS, tobytes, pairs, values, nlimbs, boundary_values, rand_value, LIMB_ALPHABET
 
 BINS = ["ux_arith"]
@@ -174,9 +175,69 @@ def estimate_low_exact(bits, rng, count):
     return out
 
 
+def reciprocal_sensitive_cases(bits, sens, rng, per):
+    """Divisions whose divisor's normalised leading limb is one of the values for which a single wrong entry of the reciprocal
+    seed table shows (C14.table_sensitive_divisors) and whose running remainder is within 0.01 % of the divisor - the only
+    windows in which a reciprocal that is one too small costs more than the single correction step repairs.  One- and
+    two-limb divisors, with and without a normalisation shift."""
+    mx = (1 << bits) - 1
+    L = nlimbs(bits)
+    out = []
+    if L < 2:
+        return out
+    for d in sens:
+        for _ in range(per):
+            u1 = d - 1 - rng.randrange(0, max(1, d >> 13))
+            n = (u1 << 64) | rng.getrandbits(64)
+            dn = d
+            tz = (d & -d).bit_length() - 1
+            s = rng.choice([0, min(tz, 1), min(tz, 3)])
+            if rng.random() < 0.3 and L >= 3:            # two-limb divisor: the 3-by-2 step uses the reciprocal of the top limb too
+                d0 = rng.getrandbits(64)
+                dn = (d << 64) | d0
+                n = (((d << 64) | d0) - 1 - rng.getrandbits(100)) << 64 | rng.getrandbits(64)
+                s = 0
+            dn >>= s
+            n >>= s
+            for extra in range(0, max(1, L - 3)):
+                if n <= mx and dn:
+                    out.append((n, dn))
+                n = (n << 64) | rng.getrandbits(64)
+                if extra >= 1 and rng.random() < 0.7:
+                    break
+    return out
+
+
+def zero_run_cases(bits, rng, count):
+    """Numerators with all-zero interior limbs below an exact multiple of the divisor: the running remainder is zero when the
+    zero limbs are reached, and with an un-normalised divisor the bits that the inline normalisation pulls up from the next
+    lower limb are all that the step has to divide."""
+    mx = (1 << bits) - 1
+    L = nlimbs(bits)
+    out = []
+    if L < 3:
+        return out
+    for _ in range(count):
+        dl = 1 if L < 4 or rng.random() < 0.7 else 2
+        s = rng.choice([0, 1, 4, 31, 60, 63])
+        d = (rng.getrandbits(64 * dl - s) | (1 << (64 * dl - s - 1))) if rng.random() < 0.6 else rng.choice([3, 10, 7, 10 ** 9, (1 << 32) + 1, 10 ** 18])
+        j = rng.randrange(2, L)                                   # the multiple starts at limb j
+        zeros = rng.randrange(1, j)                               # this many all-zero limbs directly below it
+        k = rng.choice([1, 2, rng.getrandbits(10) + 1, rng.getrandbits(60) + 1])
+        low_limbs = j - zeros
+        low = (rng.getrandbits(64 * low_limbs) | (1 << (64 * low_limbs - 1))) if rng.random() < 0.8 else rng.getrandbits(64 * low_limbs)
+        for top in (k * d, k * d + rng.randrange(0, d)):
+            n = (top << (64 * j)) | low
+            if n <= mx:
+                out.append((n, d))
+    return out
+
+
 def scenarios(tier, rng):
     quick = tier == "quick"
     sc = []
+    from . import C14
+    sens = C14.table_sensitive_divisors(random.Random(rng.getrandbits(32)), 3 if quick else 5, 700 if quick else 2000)
     for bits in WIDTHS:
         if bits <= 6:
             ps = pairs(bits, rng, 0)
@@ -196,6 +257,12 @@ def scenarios(tier, rng):
                 ps += forced_digit_cases(bits, rng, 3 if quick else 25)
             if 128 <= bits <= 1100:
                 ps += estimate_low_exact(bits, rng, 12 if quick else 120)
+            if bits == 128 or (bits in (129, 192, 256, 320) and not quick):
+                ps += reciprocal_sensitive_cases(bits, sens, rng, 3 if quick else 6)
+            elif bits in (192, 256, 320, 521):
+                ps += reciprocal_sensitive_cases(bits, rng.sample(sens, min(len(sens), 60)), rng, 2)
+            if 129 <= bits <= 1100:
+                ps += zero_run_cases(bits, rng, 30 if quick else 300)
         for a, b in dict.fromkeys(ps):
             sc.append({"g": "arith", "op": "div", "bits": bits, "a": tobytes(a), "b": tobytes(b)})
     return {"ux_arith": sc}
